@@ -176,6 +176,89 @@ def chan_replayer(extra, path):
             real.close()
 
 
+# ----------------------------------------------------------------------------- C2S sessions
+class _SessionCatalog:
+    """Per-session message table: ids are assigned by content."""
+
+    def __init__(self):
+        self.by_id = {}
+        self.by_content = {}
+
+    def add(self, kind, data):
+        k = (kind, data)
+        if k not in self.by_content:
+            i = len(self.by_id) + 1
+            self.by_content[k] = i
+            self.by_id[i] = {"id": i, "kind": kind, "data": data, "wire": data, "comp": False, "utf8ok": True}
+        return self.by_content[k]
+
+    def ident(self, message):
+        if isinstance(message, str):
+            kind, data = "text", message.encode("utf-8")
+        else:
+            kind, data = "binary", bytes(message)
+        return {"kind": kind, "id": self.by_content.get((kind, data), 0)}
+
+
+def random_session(job):
+    from harness.httpsim import LogCapture
+    tid, seed, nmsg = job
+    rng = random.Random(seed)
+    cfg = {"deflate": rng.random() < 0.7}
+    sc = _SessionCatalog()
+    rec = []
+    ev = []
+    words = ["alpha", "béta", "gamma ", "δelta", "\u4e2d\u6587", " ", "0123456789", "\n"]
+    with LogCapture():
+        pair = W.PairReal(cfg, sc, grid=rng.randrange(7), mode=rng.choice(["cb", "read"]), seed=seed, record=rec)
+        try:
+            last = {"c2s": [], "s2c": []}
+            pending = {"c2s": 0, "s2c": 0}
+            for _ in range(nmsg):
+                if rng.random() < 0.6 or not any(pending.values()):
+                    d = rng.choice(["c2s", "s2c"])
+                    n = rng.choice([0, 1, 2, 5, 17, 125, 126, 127, 300, 1000, 4096, 65535, 65536, 70000]) if rng.random() < 0.5 else rng.randint(0, 600)
+                    if rng.random() < 0.5:
+                        t = ""
+                        while len(t.encode("utf-8")) < n:
+                            t += rng.choice(words)
+                        data = W._utf8_trim(t.encode("utf-8"), n)
+                        kind = "text"
+                    else:
+                        kind = "binary"
+                        data = rng.randbytes(n) if rng.random() < 0.5 else (rng.randbytes(max(1, n // 50)) * 60)[:n]
+                    mid = sc.add(kind, data)
+                    obs = pair.step("send", [d, mid])
+                    ev.append({"a": "send", "args": [d, {"id": mid, "kind": kind, "dlen": len(data)}], "obs": obs})
+                    pending[d] += 1
+                else:
+                    d = rng.choice([x for x in pending if pending[x]])
+                    k = rng.choice([1, 1, 2, 3, 5])
+                    ctl = rng.choice(["none", "ping", "pong"])
+                    del rec[:]
+                    obs = pair.step("transfer", [d, k, ctl, rng.randrange(4)])
+                    for w in rec:
+                        ev.append({"a": "wire", "args": w["args"], "obs": dict(last)})
+                    new = obs[d][len(last[d]):]
+                    cur = {"c2s": list(last["c2s"]), "s2c": list(last["s2c"])}
+                    for x in new:
+                        cur[d] = cur[d] + [x]
+                        ev.append({"a": "deliver", "args": [d], "obs": {"c2s": list(cur["c2s"]), "s2c": list(cur["s2c"])}})
+                    if obs != cur:      # something other than appended deliveries changed: log it as it is
+                        ev.append({"a": "deliver", "args": [d], "obs": obs})
+                    pending[d] = 0
+                last = {"c2s": list(obs["c2s"]), "s2c": list(obs["s2c"])}
+            return {"id": tid, "cfg": cfg, "negotiated": pair.negotiated, "ev": ev}
+        finally:
+            pair.close()
+
+
+def session_sig(t, bad, l):
+    if not bad:
+        return {}
+    return {"setup": "session", "deflate": t["cfg"]["deflate"], "dir": bad["args"][0] if bad.get("args") else None}
+
+
 def run(ctx):
     global _RECV_CAT, _CHAN_CAT
     from checks.C15 import coverage_names
@@ -213,6 +296,12 @@ def run(ctx):
     ctx.replay(expand_chan(paths, ctx.seed, ctx.pick(1, 3)), chan_replayer, label="s2c")
     ctx._phase("s2c-chan", t0)
     ctx.cov["exhaustive"] = True
+    # 5. code -> spec: random sessions on the real pair, wire frames and deliveries judged by TLC
+    t0 = time.time()
+    n = ctx.pick(150, 3000)
+    traces = framework.pool_map(random_session, [(i + 1, ctx.seed * 1000003 + i, ctx.pick(14, 30)) for i in range(n)])
+    ctx.validate("ws", "Trace_WsChannel", "Trace_WsChannel.cfg", traces, sig_fn=session_sig)
+    ctx._phase("c2s", t0)
     ctx.cov["trusted_base"] += ["harness/ws_driver.py frame plumbing (cross-checked against the TLA+ codec table)",
                                 "zlib as the opaque permessage-deflate codec", "sha1-free content identity: messages compared by bytes"]
     ctx.cov["rule"] = ("codec: header table (fin x rsv x opcode x mask x 12 boundary lengths); receiver: every permitted frame "
